@@ -43,7 +43,7 @@ def cases(tier, seed):
                         yield {"strategy": strategy, "scitype": scitype, "n": n, "wl": wl, "fh": fh, "nx": nx,
                                "fh_in": ["fit", "both", "predict"][i % 3], "off": [0, 3, -7, 500][i % 4],
                                "then": ["none", "none", "update_refit", "update_norefit", "update_predict"][(i // 3) % 5], "values": "id", "dseed": i}
-    nn = 600 if tier == "quick" else 30000
+    nn = 600 if tier == "quick" else 120000
     for _ in range(nn):
         strategy = STRATS[int(rng.integers(0, 4))]
         n = int(rng.integers(8, 61))
